@@ -1546,8 +1546,22 @@ func throughGetter(v ssa.Value) ssa.Value {
 
 // boundNonZeroCond evaluates a branch condition under the assumption that every Limit/Passes field read is non-zero.
 func boundNonZeroCond(cond ssa.Value, bound func(*types.Var) string) (val, known bool) {
+	return boundNonZeroCondV(cond, fieldClass(bound))
+}
+
+// fieldClass: the classifier of values that reads a bound's name off a field load.
+func fieldClass(bound func(*types.Var) string) func(ssa.Value) string {
+	return func(v ssa.Value) string {
+		if fv, _ := FieldOf(Strip(v)); fv != nil {
+			return bound(fv)
+		}
+		return ""
+	}
+}
+
+func boundNonZeroCondV(cond ssa.Value, class func(ssa.Value) string) (val, known bool) {
 	if u, ok := cond.(*ssa.UnOp); ok && u.Op == token.NOT {
-		v, k := boundNonZeroCond(u.X, bound)
+		v, k := boundNonZeroCondV(u.X, class)
 		return !v, k
 	}
 	b, ok := cond.(*ssa.BinOp)
@@ -1555,9 +1569,11 @@ func boundNonZeroCond(cond ssa.Value, bound func(*types.Var) string) (val, known
 		return false, false
 	}
 	isBound := func(v ssa.Value) bool {
+		if class(Strip(v)) != "" {
+			return true
+		}
 		for _, r := range Roots(v, false) {
-			fv, _ := FieldOf(Strip(r))
-			if fv == nil || bound(fv) == "" {
+			if class(Strip(r)) == "" {
 				return false
 			}
 		}
@@ -1582,6 +1598,10 @@ func boundNonZeroCond(cond ssa.Value, bound func(*types.Var) string) (val, known
 // boundsMayReach: the Limit/Passes fields the value may derive from when both are non-zero (phi edges from
 // blocks that are unreachable under that assumption do not count).
 func boundsMayReach(fn *ssa.Function, v ssa.Value, bound func(*types.Var) string) map[string]bool {
+	return boundsMayReachV(fn, v, fieldClass(bound), 0)
+}
+
+func boundsMayReachV(fn *ssa.Function, v ssa.Value, class func(ssa.Value) string, depth int) map[string]bool {
 	feasible := map[*ssa.BasicBlock]bool{}
 	edge := map[[2]*ssa.BasicBlock]bool{}
 	var walk func(b *ssa.BasicBlock)
@@ -1592,7 +1612,7 @@ func boundsMayReach(fn *ssa.Function, v ssa.Value, bound func(*types.Var) string
 		feasible[b] = true
 		succs := Succs(b)
 		if iff, ok := b.Instrs[len(b.Instrs)-1].(*ssa.If); ok && len(b.Succs) == 2 {
-			if val, known := boundNonZeroCond(iff.Cond, bound); known {
+			if val, known := boundNonZeroCondV(iff.Cond, class); known {
 				if val {
 					succs = []*ssa.BasicBlock{b.Succs[0]}
 				} else {
@@ -1616,9 +1636,37 @@ func boundsMayReach(fn *ssa.Function, v ssa.Value, bound func(*types.Var) string
 			return
 		}
 		seen[v] = true
-		if fv, _ := FieldOf(Strip(v)); fv != nil && bound(fv) != "" {
-			out[bound(fv)] = true
+		if name := class(Strip(v)); name != "" {
+			out[name] = true
 			return
+		}
+		// a bound computed up front by a helper of the package (total, bounded := deliveryBound(limit, passes, n)): what
+		// the helper may return in that position, its parameters standing for the arguments of this call
+		if cl, idx := CallOfValue(v); cl != nil && depth < 2 {
+			if h := cl.Call.StaticCallee(); h != nil && len(h.Blocks) > 0 && h != fn && PkgOf(h) == PkgOf(fn) {
+				if idx < 0 {
+					idx = 0
+				}
+				hClass := func(hv ssa.Value) string {
+					if pr, isP := hv.(*ssa.Parameter); isP && pr.Parent() == h {
+						for i, q := range h.Params {
+							if q == pr && i < len(cl.Call.Args) {
+								return class(Strip(cl.Call.Args[i]))
+							}
+						}
+						return ""
+					}
+					return class(hv)
+				}
+				for _, b := range h.Blocks {
+					if r, isR := b.Instrs[len(b.Instrs)-1].(*ssa.Return); isR && idx < len(r.Results) {
+						for name := range boundsMayReachV(h, r.Results[idx], hClass, depth+1) {
+							out[name] = true
+						}
+					}
+				}
+				return
+			}
 		}
 		switch x := v.(type) {
 		case *ssa.Phi:
